@@ -70,6 +70,10 @@ def q1_handout_check(ctx) -> None:
         if not taken:
             ctx.violation("Q1", r, f"__next__ hands out `{norm(v)}` which is not a packet just taken out of self.staging")
             continue
+        if norm(src.func) == "self.staging.pop" and not src.args:
+            ctx.violation("Q1", src, "packets leave the staging area from the right end (pop()) although they are staged at the right end (extend): the packets of one batch "
+                          "come out in reverse -- initial work before inferral work, later strategies of an expansion set before earlier ones")
+            continue
         if not isinstance(v, ast.Name):
             ctx.violation("Q1", r, "__next__ returns the dequeued packet without looking at the ignore set (nothing to test it on)")
             continue
